@@ -37,7 +37,7 @@ Atoms(f) ==
       [] f = "asref_struct"  -> {"forward", "ty_a", "ty_b", "ty_ab", "ty_ab_comma"}
       [] f = "asref_field"   -> {"bare", "skip", "ignore", "forward", "ty_a", "ty_b", "ty_ab"}
       [] f = "into_struct"   -> {"bare", "owned", "ref", "ref_mut", "owned_ref", "ref_refmut", "all3", "all3_comma", "ty_a", "ty_b", "ty_ab", "unknown_form",
-                                 "legacy_types", "mixed_forms"}
+                                 "legacy_types", "mixed_forms", "forms_nocomma"}
       [] f = "into_field"    -> {"skip", "ignore"}
       [] f = "legacy_field"  -> {"sel", "ignore", "forward", "unknown", "eq_value", "name_value", "lit_param", "not_foreign", "not_unneg"}
       [] f = "legacy_forms"  -> {"owned", "ref", "ref_mut", "owned_ref", "all3", "unknown", "list_param", "name_value", "not_foreign", "not_unneg"}
@@ -50,6 +50,8 @@ Corrupt(f, a) == a \in {"legacy_fmt", "legacy_bound", "unknown", "legacy_types",
                          \* `not(...)` around a flag of ANOTHER derive (`#[error(not(forward))]`, `#[deref(not(source))]`), or around a
                          \* parameter of this derive that has no negation (`not(ignore)`, `not(owned)`)
                          "not_foreign", "not_unneg",
+                         \* two entries of a list with no comma between them (`#[into(ref(i32) ref_mut)]`)
+                         "forms_nocomma",
                          \* a bare `#[from]` chooses among VARIANTS: on a struct it means nothing and is rejected
                          \* (`#[from(skip)]` on a struct is a type list naming a type called `skip`: C08's subject)
                          "variant_only_from"}
